@@ -29,7 +29,7 @@ from vlib.front import unparse, dotted, const_value
 
 A = 'phylib/io/array.py'
 TR = 'phylib/io/traces.py'
-FLOOR = 8
+FLOOR = 6
 EXPLANATION = ('sym engine: the generators chunk_bounds / excerpts are walked path by path (loop unrolled 0..2 times, every outcome '
                'of every comparison), each yielded tuple is a symbolic term over the parameters; chain equalities between consecutive '
                'yields and bounds are decided by equality / sign of linear normal forms (max/min/floor-division as interpreted atoms)')
